@@ -171,10 +171,10 @@ def check(ctx):
     ctx.ob("LAYER.clone.rename", lclone, "a key in `keys` is stored under clone_key(key, seed)", ok)
     ok = len(reset) == 1 and len(cvc) == 1 and dominates(lclone, reset[0][0], cvc[0][0]) and enclosing_loops(reset[0][0])[:1] == [loop]
     ctx.ob("LAYER.clone.leaf-reset", lclone, "is_leaf = True is reset for every key before its value is rewritten", ok, "" if ok else "the leaf flag leaks from one key to the next: later leaves are not bound to the blocker")
-    ok = len(wrap) == 1 and len(bnd) == 1 and len(cvc) == 1 and dominates(lclone, cvc[0][0], wrap[0][0])
+    ok = len(wrap) == 1 and len(bnd) >= 1 and len(cvc) == 1 and dominates(lclone, cvc[0][0], wrap[0][0])
     if ok:
         facts = [(unparse(e), pol) for e, pol in cfg_of(lclone).facts(wrap[0][0])]
-        ok = ("bind_to is None", False) in facts and ("is_leaf", True) in facts and control_equivalent(lclone, wrap[0][0], bnd[0][0])
+        ok = ("bind_to is None", False) in facts and ("is_leaf", True) in facts and any(control_equivalent(lclone, wrap[0][0], b_[0]) for b_ in bnd)
     ctx.ob("LAYER.clone.bind-leaf", lclone, "if bind_to is not None and is_leaf: value = (chunks.bind, value, bind_to); bound = True", ok)
     ok = len(store) == 1 and store[0][0] in loop.body
     ctx.ob("LAYER.clone.store", lclone, "every key (cloned or not) is stored in the new layer", ok)
@@ -296,6 +296,57 @@ def check(ctx):
     ctx.ob("WAIT.blocker", wait_on, "wait_on: one checkpoint of all inputs; every chunk of every name is bound to it and renamed", ok)
     ok = blk is not None and bool(find("repack([block_one(coll) for coll in unpacked])", wait_on))
     ctx.ob("WAIT.all", wait_on, "every unpacked collection is rebuilt", ok)
+    # ---------------- Layer.clone: new-style graph nodes (Task / Alias / DataNode) are renamed and redirected too
+    cn = next((f for f in ast.walk(lclone) if isinstance(f, ast.FunctionDef) and f.name == "clone_node"), None)
+    if cn is None:
+        ctx.ob("LAYER.clone.graphnode", lclone, "Layer.clone rewrites GraphNode values (their key and their references to replaced keys)", False, "a Task stored in a materialized layer keeps its old key and its TaskRefs to the originals: the clone of a delayed tree or of a sliced array fails with 'Missing dependency'")
+    else:
+        subs = find("subs = {k: clone_key(k, seed) for k in node.dependencies if k in keys}", cn)
+        lf = find("is_leaf = False", cn)
+        ok = len(subs) == 1 and len(lf) == 1 and any(unparse(e) == "subs" and pol for e, pol in cfg_of(cn).facts(lf[0][0]))
+        rets = {unparse(r.value) for r in returns(cn)}
+        ok = ok and rets == {"Alias(key, subs.get(node.target, node.target))", "node.substitute(subs, key=key)"} and all(dominates(cn, subs[0][0], r) for r in returns(cn))
+        ctx.ob("LAYER.clone.graphnode", cn, "clone_node: every dependency that is in `keys` is redirected to clone_key(k, seed) (clearing the leaf flag) and the node gets the new key", ok)
+        top = find("value = clone_node(value, key)", loop)
+        ok = len(top) == 1 and len(ren) == 1 and len(reset) == 1 and any(unparse(e) == "isinstance(value, GraphNode)" and pol for e, pol in cfg_of(lclone).facts(top[0][0])) and dominates(lclone, ren[0][0], top[0][0]) and dominates(lclone, reset[0][0], top[0][0])
+        ctx.ob("LAYER.clone.graphnode.top", lclone, "a GraphNode value of a replaced key is rewritten by clone_node under the NEW key", ok)
+        ok = any(unparse(r.value) == "clone_node(o, o.key)" and any(unparse(e) == "isinstance(o, GraphNode)" and pol for e, pol in cfg_of(cv).facts(r)) for r in returns(cv))
+        ctx.ob("LAYER.clone.graphnode.nested", cv, "a GraphNode nested in a legacy value is rewritten in place (own key kept)", ok)
+        wrap2 = find("value = Task(key, chunks.bind, value, TaskRef(bind_to))", loop)
+        ok = len(wrap2) == 1 and len(top) == 1 and dominates(lclone, top[0][0], wrap2[0][0])
+        if ok:
+            facts = [(unparse(e), pol) for e, pol in cfg_of(lclone).facts(wrap2[0][0])]
+            nb = [b_ for b_, _ in find("bound = True", loop)]
+            ok = ("bind_to is None", False) in facts and ("is_leaf", True) in facts and any(control_equivalent(lclone, wrap2[0][0], b_) for b_ in nb)
+        ctx.ob("LAYER.clone.graphnode.bind-leaf", lclone, "a GraphNode leaf is bound with Task(key, chunks.bind, value, TaskRef(bind_to)) and reported as bound", ok)
+    # ---------------- every collection's postpersist rebuild understands the rename= that _bind_one passes
+    n_pp = 0
+    for ci in model.all_classes("dask"):
+        pp = ci.own_methods.get("__dask_postpersist__")
+        if pp is None or "/tests/" in ci.module.relpath or ci.module.relpath == "dask/typing.py":
+            continue
+        for r in returns(pp):
+            if not (isinstance(r.value, ast.Tuple) and r.value.elts):
+                ctx.ob("CALLCONV.rebuild.rename", pp, f"{ci.name}.__dask_postpersist__ returns (rebuild, state)", None, "unrecognised return shape")
+                continue
+            fn = r.value.elts[0]
+            target = None
+            if isinstance(fn, ast.Attribute) and isinstance(fn.value, ast.Name) and fn.value.id == "self":
+                target = ci.method(fn.attr)[1]
+            else:
+                res = model.resolve_name(ci.module, unparse(fn), scope=pp)
+                if res and res[0] != "ext":
+                    target = res[1]
+            if not isinstance(target, (ast.FunctionDef, ast.AsyncFunctionDef)):
+                ctx.ob("CALLCONV.rebuild.rename", pp, f"{ci.name}.__dask_postpersist__ -> {unparse(fn)}", None, "rebuild callable not resolved")
+                continue
+            a = target.args
+            names = [x.arg for x in a.posonlyargs + a.args + a.kwonlyargs]
+            ok = "rename" in names or a.kwarg is not None
+            n_pp += 1
+            ctx.ob("CALLCONV.rebuild.rename", target, f"{ci.module.relpath}::{ci.name}.__dask_postpersist__ -> {unparse(fn)}({', '.join(names)}) accepts rename=", ok, "" if ok else "graph_manipulation._bind_one calls rebuild(graph, *state, rename={old: new}): clone(), bind() and wait_on() raise TypeError for this collection type")
+    ctx.count("postpersist_rebuilds", n_pp)
+    ctx.floor("postpersist_rebuilds", 6, "Array, Bag, Item, Delayed, FrameBase, array-expression Array")
 
 
 VARIANTS = [
